@@ -274,7 +274,8 @@ PENDING_REASON = "check not built yet in this round (design in DESIGN.md section
 ADDENDA = {
     "C09": " The pair also runs on FrameCount.POSTPONED renderables (resolving to definite / INDEFINITE, read or unread), with a hash-colliding pair of render-args values and with output that depends on the duration setting.",
     "C01": " Plus the iter(image) entry point (frames == str(image) at that frame, exactly rendered_size).",
-    "C12": " Configurations also vary the process environment (TERM_PROGRAM / TERM_PROGRAM_VERSION unset or set, judged against the documented fallback wherever XTVERSION is unsupported, disabled or unanswered, with a reply taking precedence) and the configured query timeout (0.05 / 0.1 / 0.5 s, + 0.03 in thorough) with reply delays on both sides of the 0.1 s default; elapsed virtual time is bounded by the configured timeout per query.",
+    "C12": " Configurations also vary the process environment (TERM_PROGRAM / TERM_PROGRAM_VERSION unset or set, judged against the documented fallback wherever XTVERSION is unsupported, disabled or unanswered, with a reply taking precedence) and the configured query timeout (0.05 / 0.1 / 0.5 s, + 0.03 in thorough) with reply delays on both sides of the 0.1 s default; elapsed virtual time is bounded by the configured timeout per query. "
+           "DA1 reply variants include a 174-byte reply (drained tail longer than one read chunk).",
     "C16": " Field values include equal-but-distinguishable pairs (True/1, float(default)/default, fresh equal tuples); "
            "alteration of existing objects is judged by identity of constituent namespaces and by the type of every "
            "field, not by ==. "
@@ -282,16 +283,19 @@ ADDENDA = {
     "C17": " Also tall-narrow sources (columns < rows), off-grid pixel sizes at two cell sizes, the global cell ratio "
            "{0.25, 1.0, 2.0, ...}, canvases trimmed after their image was rendered again at another size, and pairs of "
            "content() iterators advanced in lock step. "
-           "The flow-rows clause is also judged after the environment changed behind an existing widget: the cell ratio for text styles, the terminal's cell size for graphics styles.",
+           "The flow-rows clause is also judged after the environment changed behind an existing widget: the cell ratio for text styles, the terminal's cell size for graphics styles. "
+           "The flow-rows clause is also judged when the shared image object already carries a size: one set through set_size(height=...), or one left by an earlier render at the same width before the cell ratio or cell size changed.",
     "C04": " The history alphabet also contains a render that fails because the source file is missing, a repeated "
            "rendered_size read across a cell-size and cell-aspect change on the same instance, a history-free twin "
            "comparison of every fixed automatic size, and a cached ImageIterator running across a resize or ratio "
            "change (frame size == current size); the frame menu includes mixed absolute/relative frames. "
-           "Also in unusual environments: a terminal reporting swapped pixel dimensions with the win-size-swap workaround enabled, and standard output not being the terminal (tty size versus stdout / shutil fallback size), in the grid and as extra history searches.",
+           "Also in unusual environments: a terminal reporting swapped pixel dimensions with the win-size-swap workaround enabled, and standard output not being the terminal (tty size versus stdout / shutil fallback size), in the grid and as extra history searches. "
+           "Plus a terminal whose pixel size is only available through XTWINOPS CSI 14 t, and resizes that happen while terminal queries are disabled (sizes are those for the real cell size once queries are re-enabled).",
     "C02": " The format(image, spec) entry point is exercised with every alpha-field form (`#`, thresholds, hex colours "
            "including digits-only ones, black and upper-case), and frames of mixed modes within one multi-page file are "
            "reached from every other page. "
-           "Terminal backgrounds include components below 16 (zero-padded hex backdrop), and the history queries disabled, render, queries enabled, render is judged on every known background.",
+           "Terminal backgrounds include components below 16 (zero-padded hex backdrop), and the history queries disabled, render, queries enabled, render is judged on every known background. "
+           "Known backgrounds are reported with ST- and with BEL-terminated colour replies.",
     "C03": " Interaction dimensions: render method set on the instance or class x per-call override (all pairs, kitty "
            "and iterm2, sources smaller and larger than the render with heights not divisible by the line count); "
            "jpeg_quality configured on ITerm2Image x a subclass x the instance (expectation derived from the "
@@ -303,7 +307,8 @@ ADDENDA = {
            "AlignedPadding subclasses (trivial; overriding _get_exact_dimensions_) x relative/absolute dimensions through "
            "resolve, to_exact, pad, render, RenderIterator(), set_padding, draw(): a relative instance behaves as the same "
            "class with the clamped absolute dimensions. "
-           "Format specs with an explicit zero height / width (relative to the terminal dimension, unlike an omitted field); animated draw() calls of at least 3 frames whose padded width equals the terminal width with RIGHT alignment (each frame ends in the pending-wrap state).",
+           "Format specs with an explicit zero height / width (relative to the terminal dimension, unlike an omitted field); animated draw() calls of at least 3 frames whose padded width equals the terminal width with RIGHT alignment (each frame ends in the pending-wrap state). "
+           "Including worlds in which standard output is not the active terminal (fd 1 / COLUMNS x LINES report 80x24): terminal-relative dimensions resolve against the active terminal through render, RenderIterator, set_padding, draw() and old-API format specs.",
     "C06": " Plus: kitty versions around the blend / clear-by-z gate and style-specific draw() parameters (z_index, mix, "
            "compress); histories within one execution (dynamic-size image drawn, terminal resized, drawn again); "
            "INDEFINITE streams of 1-5 frames in both frame-numbering modes; renderables whose render data fixes a "
@@ -335,12 +340,14 @@ ADDENDA = {
     "C14": " Including synchronized functions obtained by decorating the same function object twice or an already "
            "synchronized wrapper again, and reply schedules in which a reply (or its tail) arrives after its caller's "
            "query timed out and before the next caller's query (the next caller must not read it as its own). "
-           "Plus rarely used entry points with their own synchronization (KittyImage.is_supported()'s two-step query after the lock migration, get_cell_size()'s three-reply query next to another caller with slow atomic replies); locks that other library modules imported by name are scheduled too and go stale at the first Process.start() as in reality.",
+           "Plus rarely used entry points with their own synchronization (KittyImage.is_supported()'s two-step query after the lock migration, get_cell_size()'s three-reply query next to another caller with slow atomic replies); locks that other library modules imported by name are scheduled too and go stale at the first Process.start() as in reality. "
+           "A synchronized call that raises followed by further synchronized calls of the same thread, and the library's urwid screen input poll next to a terminal query (urwid's own reader replaced by one on the virtual tty); threading.local state of the library is reset per simulated thread.",
     "C15": " The probes' memoized bodies also return None / False / 0 / () (a falsy result is a result) and can be made "
            "to raise once; get_cell_size() can be interrupted at representative tty calls; a process start (cache "
            "migration) is part of the cell alphabet; the probe and cell searches are repeated in a world where standard "
            "output is not the active terminal (shutil's size is a constant differing from every terminal size). "
-           "Also a get racing with enable_win_size_swap() followed by a sequential get (<= 2 preemptions), and a search in which a cell-size query times out and its replies arrive before the next query after a resize (nothing stale may be memoized).",
+           "Also a get racing with enable_win_size_swap() followed by a sequential get (<= 2 preemptions), and a search in which a cell-size query times out and its replies arrive before the next query after a resize (nothing stale may be memoized). "
+           "cached probe arguments are distinct tuples with equal hashes (each needs its own entry), and a terminal_size_cached body during which the terminal is resized (the value belongs to the size the call started with).",
     "C18": " Identities kitty / kitty 0.25.0 / konsole / unrecognised terminal with forced kitty support / other; "
            "transitions include a neighbour on the image's rows changing, the public clear_images() in all its forms, and "
            "widgets of a subclass with format-spec z fields. A fault dimension: the k-th write of a redraw raises EAGAIN "
@@ -352,15 +359,20 @@ ADDENDA = {
            "after resizing back (same process). Entry points: cached ImageIterators with +style specs across a size "
            "change, UrwidImage-then-format-then-ImageIterator ordering, and rejected specifiers on live / closed / "
            "file-missing images (documented error wins, source not opened). "
-           "A user-defined style with grouped field patterns written against the documented subclass hooks, with its own reference sub-grammar and exhaustive pass; iterm2 RGBA file sources decoded from the payload under each transparency setting.",
+           "A user-defined style with grouped field patterns written against the documented subclass hooks, with its own reference sub-grammar and exhaustive pass; iterm2 RGBA file sources decoded from the payload under each transparency setting. "
+           "A colour-field family with near-miss characters; base-part rejections must carry the documented 'Invalid format specifier' message; long zero-padded and out-of-range z-index digit strings.",
     "C20": " Class trees include mixin-first and mixin-last multiple inheritance, a diamond, the library's real abstract "
            "ancestry (BaseImage / GraphicsImage / TextImage) for forced support, and a subclass with a derived metaclass; "
            "the reference resolves along Python's MRO computed on a shadow hierarchy. Values include negative jpeg "
            "qualities and non-lowercase method spellings; every state is also checked through a cached ImageIterator with "
            "an overriding spec across a size change. "
-           "KittyImage.clear() (plain / now / cursor / z_index) on a non-supporting terminal is an observation of effective forced support on every class node.",
+           "KittyImage.clear() (plain / now / cursor / z_index) on a non-supporting terminal is an observation of effective forced support on every class node. "
+           "An ImageIterator without a method in its spec follows instance- and class-level set / unset applied between its construction and later frames.",
 }
 NOTE_ADDENDA = {
+    "C13": " Thread interleavings inside a mode-changing operation are out of C13's fault model; they are explored by "
+           "C14, which also judges the final attributes.",
+    "C03": " Concurrent renders (two threads inside one renderer) are outside this statement's quantifier.",
     "C01": " draw()-level frame re-positioning (_display_animated) is outside this statement and owned by C06 / C05; "
            "C01 judges render strings and ImageIterator frames only.",
 }
